@@ -165,6 +165,12 @@ func propSpecs() map[string]*PropSpec {
 			r.modeB(".", "^VX_C12_main_", true, b, "derive")
 			r.ReplayOverride = nil
 		}})
+	add(&PropSpec{ID: "C07", Title: "Regeneration depends only on current sources, not on the old derived file", Level: "other",
+		Outside: []string{"every byte offset k of an interrupted write (three truncation points are replayed)", "edit sequences other than the listed histories", "go/loader and go/parser behaviour on arbitrary broken files"},
+		RunFn: runC07})
+	add(&PropSpec{ID: "C10", Title: "User source files are left intact", Level: "other",
+		Outside: []string{"that go/format reproduces every declaration and comment (go/format behaviour)", "file systems without POSIX open/write semantics", "load errors"},
+		RunFn: runC10})
 	add(&PropSpec{ID: "C09", Title: "Every run ends cleanly: success, or a diagnostic, never a crash or bad file", Level: "other",
 		Outside: []string{"termination and absence of Go panics for every input program", "well-formedness of emitted text in general", "diagnostic wording"},
 		RunFn: runC09})
